@@ -112,6 +112,11 @@ def main():
         shutil.copy(patch, os.path.join(dst, "patch.diff"))
         if os.path.isfile(demo_src):
             shutil.copy(demo_src, os.path.join(dst, "demo.rs"))
+        old = {}
+        if os.path.exists(os.path.join(dst, "meta.json")):
+            old = json.load(open(os.path.join(dst, "meta.json")))
+        if not ran and old.get("confirmed_by_me"):
+            ran = old["confirmed_by_me"]
         meta_out = {
             "property": pid,
             "summary": meta.get("summary"),
